@@ -254,3 +254,63 @@ def numeric_or_defaults(f: FuncInfo) -> list:
                 and not any(isinstance(v, (ast.Compare, ast.BoolOp)) for v in n.values[:-1]):
             out.append((n, ast.unparse(n)[:60]))
     return out
+
+
+def positional_name_mismatches(repo, want=None, stats=None):
+    """Calls whose *positional* arguments are plain names that spell parameters of the resolved callee at a different
+    position (`f(b, a)` against `def f(a, b)`): the value lands in the slot of another parameter.
+
+    Resolved callees only: `super().__init__(...)` / `super().m(...)` by the MRO after the calling class, `self.m(...)`,
+    `Cls(...)` -> `Cls.__init__`, module-level functions through the import map.  Yields
+    (caller, call node, callee, position, argument name, parameter at that position).  *want(callee)* filters callees."""
+    import ast
+
+    from ..model import walk_no_nested
+
+    def callee_of(f, call):
+        fn = call.func
+        cls = f.cls
+        me = f.params[0] if f.params and cls is not None else None
+        if isinstance(fn, ast.Attribute):
+            v = fn.value
+            if isinstance(v, ast.Call) and isinstance(v.func, ast.Name) and v.func.id == "super" and cls is not None:
+                return cls.resolve_after(cls, fn.attr), 1
+            if isinstance(v, ast.Name) and v.id == me and cls is not None:
+                return cls.resolve(fn.attr), 1
+            if isinstance(v, ast.Name):
+                tgt = repo.resolve_name(f.module, v.id)
+                if hasattr(tgt, "resolve"):  # Cls.m(...)
+                    m_ = tgt.resolve(fn.attr)
+                    if m_ is not None:
+                        unbound = not any(getattr(d, "id", None) in ("classmethod", "staticmethod") for d in m_.node.decorator_list)
+                        return m_, (0 if unbound else (1 if any(getattr(d, "id", None) == "classmethod" for d in m_.node.decorator_list) else 0))
+            return None, 0
+        if isinstance(fn, ast.Name):
+            tgt = repo.resolve_name(f.module, fn.id, repo.function_imports(f))
+            if hasattr(tgt, "resolve"):
+                return tgt.resolve("__init__"), 1
+            if hasattr(tgt, "params"):
+                return tgt, 0
+        return None, 0
+
+    for f in repo.all_functions():
+        for call in walk_no_nested(f.node):
+            if not isinstance(call, ast.Call) or not call.args or any(isinstance(a, ast.Starred) for a in call.args):
+                continue
+            try:
+                callee, skip = callee_of(f, call)
+            except Exception:  # unresolved: not judged
+                continue
+            if callee is None or (want is not None and not want(callee)):
+                continue
+            a_ = callee.node.args
+            pos = [x.arg for x in a_.posonlyargs + a_.args][skip:]
+            allp = set(pos) | {x.arg for x in a_.kwonlyargs}
+            if stats is not None:
+                stats["resolved_calls_with_positional_arguments"] = stats.get("resolved_calls_with_positional_arguments", 0) + 1
+                stats["positional_name_arguments"] = stats.get("positional_name_arguments", 0) + sum(isinstance(a, ast.Name) and a.id in allp for a in call.args)
+            for i, arg in enumerate(call.args):
+                if not isinstance(arg, ast.Name) or i >= len(pos):
+                    continue
+                if arg.id in allp and pos[i] != arg.id:
+                    yield f, call, callee, i, arg.id, pos[i]
